@@ -68,42 +68,120 @@ def pytest_summary(d):
     return 'ok (no test outside the 8 always-failing ones fails) [%s]' % (last[-1].strip() if last else '?')
 
 
+def clone_at(rev):
+    """scratch git clone of /repo (outside /repo and /verif) checked out at rev"""
+    d = tempfile.mkdtemp(prefix='seedrun-')
+    rc, out = sh(['git', 'clone', '-q', '/repo', d])
+    if rc:
+        raise RuntimeError(out)
+    rc, out = sh(['git', 'checkout', '-q', rev], cwd=d)
+    if rc:
+        raise RuntimeError(out)
+    return d
+
+
+def base_commit_of(patch):
+    """newest commit of /repo whose files have the blob ids the patch was made against"""
+    want = {}
+    cur = None
+    for l in open(patch, errors='replace'):
+        if l.startswith('diff --git a/'):
+            cur = l.split(' b/')[0][len('diff --git a/'):]
+        elif l.startswith('index ') and cur:
+            want[cur] = l.split()[1].split('..')[0]
+    rc, out = sh(['git', '-C', '/repo', 'rev-list', 'HEAD'])
+    for c in out.split():
+        ok = True
+        for path, blob in want.items():
+            rc2, o2 = sh(['git', '-C', '/repo', 'rev-parse', '%s:%s' % (c, path)])
+            if rc2 or not o2.strip().startswith(blob):
+                ok = False
+                break
+        if ok:
+            return c
+    return None
+
+
+_BASE_KEYS = {}
+
+
+def violation_keys(lines):
+    keys = set()
+    for l in lines:
+        if l.startswith('VIOLATION') and '#' in l:
+            k = l.split('#', 1)[1].strip()
+            keys.add(k.split(' (x')[0] if ' (x' in k.split(': ')[0] else k.split(': ')[0])
+    return keys
+
+
+def run_check(c, tier, d):
+    env2 = dict(os.environ, LOMOND_SRC=d, VERIF_EVIDENCE_DIR=os.path.join(d, '_evidence'), VERIF_REPLAY_DIR=os.path.join(d, '_replays'))
+    t0 = time.time()
+    rc, out = sh([os.path.join(ROOT, 'check'), c, tier], cwd=ROOT, env=env2, timeout=3600)
+    lines = [l for l in out.splitlines() if l.startswith('VIOLATION') or l.startswith('INCONCLUSIVE')]
+    return dict(rc=rc, wall=round(time.time() - t0, 1), lines=[l[:260] for l in lines[:12]])
+
+
 def evaluate(sdir, tier, all_checks=False):
+    """The change is applied (3-way) to /repo's current HEAD.  A change that overlaps a later repair of /repo does
+    not apply there any more: it is then judged on the commit it was written for, differentially - it counts as
+    reported when the check prints a violation key on <that commit + change> which it does not print on <that
+    commit> alone (on an old commit the check also reports the defects repaired since)."""
     meta = json.load(open(os.path.join(sdir, 'meta.json')))
     pid = meta['property']
     res = dict(id=os.path.basename(sdir.rstrip('/')), property=pid, tier=tier, at=time.strftime('%Y-%m-%d %H:%M'))
-    d = scratch_copy()
+    patch = os.path.join(os.path.abspath(sdir), 'patch.diff')
+    d = clone_at('HEAD')
+    base = None
     try:
+        rc, out = sh(['git', 'apply', '--3way', patch], cwd=d)
+        rcg, outg = sh('grep -rl "^<<<<<<<" lomond', cwd=d)
+        if rc or outg.strip():
+            shutil.rmtree(d, ignore_errors=True)
+            base = base_commit_of(patch)
+            if base is None:
+                res['patch_applied'] = False
+                res['patch_error'] = 'does not apply to HEAD and no commit has the files it was made against'
+                return res
+            d = clone_at(base)
+            rc, out = sh(['git', 'apply', patch], cwd=d)
+            if rc:
+                res['patch_applied'] = False
+                res['patch_error'] = out[-300:]
+                return res
+            res['judged_on'] = base[:7]
+        res['patch_applied'] = True
+        sh(['git', 'stash', '-q'], cwd=d)          # demo on the unmodified tree first
         env = dict(os.environ, PYTHONDONTWRITEBYTECODE='1')
         demo = os.path.join(sdir, 'demo.py')
-        # demo on the unmodified copy
         if os.path.exists(demo):
             os.makedirs(os.path.join(d, 'MUTANT'), exist_ok=True)
             shutil.copy(demo, os.path.join(d, 'MUTANT', 'demo.py'))
             rc0, out0 = sh([PY, 'MUTANT/demo.py'], cwd=d, env=env, timeout=180)
             res['demo_unpatched_rc'] = rc0
-        rc, out = sh(['git', 'apply', '--unsafe-paths', '--directory=' + d, os.path.join(os.path.abspath(sdir), 'patch.diff')], cwd='/')
-        if rc:
-            rc, out = sh('patch -p1 < %s' % os.path.join(os.path.abspath(sdir), 'patch.diff'), cwd=d)
-        res['patch_applied'] = rc == 0
-        if rc:
-            res['patch_error'] = out[-300:]
-            return res
+        checks = [pid]
+        if all_checks:
+            checks = ['C%02d' % k for k in range(1, 20)]
+        if base is not None:
+            for c in checks:
+                if (base, c, tier) not in _BASE_KEYS:
+                    _BASE_KEYS[(base, c, tier)] = violation_keys(run_check(c, tier, d)['lines'])
+        sh(['git', 'stash', 'pop', '-q'], cwd=d)
         res['pytest'] = pytest_summary(d)
         if os.path.exists(demo):
             rc1, out1 = sh([PY, 'MUTANT/demo.py'], cwd=d, env=env, timeout=180)
             res['demo_patched_rc'] = rc1
-        checks = [pid]
-        if all_checks:
-            checks = ['C%02d' % k for k in range(1, 20)]
         res['checks'] = {}
         for c in checks:
-            env2 = dict(os.environ, LOMOND_SRC=d, VERIF_EVIDENCE_DIR=os.path.join(d, '_evidence'), VERIF_REPLAY_DIR=os.path.join(d, '_replays'))
-            t0 = time.time()
-            rc, out = sh([os.path.join(ROOT, 'check'), c, tier], cwd=ROOT, env=env2, timeout=3600)
-            lines = [l for l in out.splitlines() if l.startswith('VIOLATION') or l.startswith('INCONCLUSIVE')]
-            res['checks'][c] = dict(rc=rc, wall=round(time.time() - t0, 1), lines=[l[:260] for l in lines[:4]])
-        res['caught'] = res['checks'][pid]['rc'] == 1
+            res['checks'][c] = run_check(c, tier, d)
+            if base is not None:
+                new = sorted(violation_keys(res['checks'][c]['lines']) - _BASE_KEYS[(base, c, tier)])
+                res['checks'][c]['new_keys'] = new
+                res['checks'][c]['base_keys'] = sorted(_BASE_KEYS[(base, c, tier)])
+        if base is None:
+            res['caught'] = res['checks'][pid]['rc'] == 1
+        else:
+            res['caught'] = bool(res['checks'][pid]['new_keys'])
     finally:
         shutil.rmtree(d, ignore_errors=True)
     return res
